@@ -236,7 +236,7 @@ def assembler_impls(path, root=None):
     return A.find_impls(path, trait="Assembler", root=root)
 
 
-def r3_callbacks(rule, root=None, files=None):
+def r3_callbacks(rule, root=None, files=None, abi="sysv64"):
     """every builder that goes out of line declares an `extern "sysv64"` callback that
     computes the builder's namesake with arguments in order, and passes exactly it"""
     n = 0
@@ -264,8 +264,8 @@ def r3_callbacks(rule, root=None, files=None):
             cb = nested[0]
             call = calls[0]
             probs = []
-            if cb["sig"].get("abi") != "sysv64":
-                probs.append("callback ABI is %s, the generated code calls with sysv64" % cb["sig"].get("abi"))
+            if cb["sig"].get("abi") != abi:
+                probs.append("callback ABI is %s, the generated code calls with %s" % (cb["sig"].get("abi"), abi))
             cparams = [A.binding_name(i["pat"]) for i in cb["sig"]["inputs"] if "pat" in i]
             want_n = 2 if binary else 1
             if len(cparams) != want_n:
